@@ -1,14 +1,274 @@
 /- Helper lemmas for C02/C08: the dynamic-header mirror (tree_predictor.rs). -/
 import Preflate.Model.Valid
 namespace Preflate.Proofs
-open Preflate
+open Preflate Gen
+namespace Tree
 
+/-- decode_difference inverts encode_difference -/
+theorem decDiff_encDiff (p a : Nat) : decDiff p (encDiff p a) = .ok a := by
+  unfold decDiff encDiff
+  by_cases h : p ≥ a
+  · have h1 : (p - a) * 2 % 2 = 0 := by omega
+    have h2 : (p - a) * 2 / 2 = p - a := by omega
+    have h3 : p - a ≤ p := by omega
+    have h4 : p - (p - a) = a := by omega
+    simp only [h, if_true, h1, h2, h3, h4]
+  · have h1 : ¬ ((a - p) * 2 + 1) % 2 = 0 := by omega
+    have h2 : ((a - p) * 2 + 1) / 2 = a - p := by omega
+    have h4 : p + (a - p) = a := by omega
+    simp only [h, if_false, h1, h2, h4]
+
+@[simp] theorem popCorr_cons (c v : Nat) (r : List Op) : popCorr c (Op.corr c v :: r) = .ok (v, r) := by
+  simp [popCorr]
+
+/-- the accumulator after `decTcLengths` has read back `n` lengths starting at order index `i` -/
+def setTc (cl : List Nat) : Nat → Nat → List Nat → List Nat
+  | 0, _, acc => acc
+  | n + 1, i, acc =>
+      setTc cl n (i + 1) (acc.set (TREE_CODE_ORDER_TABLE.getD i 0) (cl.getD (TREE_CODE_ORDER_TABLE.getD i 0) 0 % 256))
+
+/-- the tree-code length loop of recreate_tree_for_block reads back what predict_tree_for_block wrote -/
+theorem decTc_encTc (tc cl : List Nat) (rest : List Op) (n : Nat) :
+    ∀ (i : Nat) (acc : List Nat),
+      decTcLengths tc n i acc (encTcLengths tc cl n i ++ rest) = .ok (setTc cl n i acc, rest) := by
+  induction n with
+  | zero => intro i acc; simp [decTcLengths, encTcLengths, setTc]
+  | succ n ih =>
+    intro i acc
+    rw [decTcLengths, encTcLengths]
+    simp only [List.cons_append, popCorr_cons, bind, Except.bind, decDiff_encDiff]
+    rw [ih, setTc]
+
+theorem setTc_length (cl : List Nat) (n : Nat) : ∀ (i : Nat) (acc : List Nat),
+    (setTc cl n i acc).length = acc.length := by
+  induction n with
+  | zero => intro i acc; rfl
+  | succ n ih => intro i acc; rw [setTc, ih, List.length_set]
+
+/-- TREE_CODE_ORDER_TABLE hits every code-length symbol -/
+theorem order_surj : ∀ k, k < 19 → ∃ j, j < 19 ∧ TREE_CODE_ORDER_TABLE.getD j 0 = k := by
+  decide
+
+open Classical in
+theorem setTc_getD (cl : List Nat) (k : Nat) (n : Nat) : ∀ (i : Nat) (acc : List Nat),
+    acc.length = 19 → k < 19 →
+    (setTc cl n i acc).getD k 0 =
+      if (∃ j, i ≤ j ∧ j < i + n ∧ TREE_CODE_ORDER_TABLE.getD j 0 = k) then cl.getD k 0 % 256 else acc.getD k 0 := by
+  induction n with
+  | zero => intro i acc _ _; simp [setTc]; intro x h1 h2; omega
+  | succ n ih =>
+    intro i acc hl hk
+    rw [setTc, ih _ _ (by simp [hl]) hk]
+    by_cases ho : TREE_CODE_ORDER_TABLE.getD i 0 = k
+    · have h1 : ∃ j, i ≤ j ∧ j < i + (n + 1) ∧ TREE_CODE_ORDER_TABLE.getD j 0 = k := ⟨i, by omega, by omega, ho⟩
+      rw [if_pos h1]
+      split
+      · rfl
+      · rw [ho]; simp [List.getD_eq_getElem?_getD, hl, hk]
+    · have h2 : (acc.set (TREE_CODE_ORDER_TABLE.getD i 0) (cl.getD (TREE_CODE_ORDER_TABLE.getD i 0) 0 % 256)).getD k 0
+          = acc.getD k 0 := by
+        generalize cl.getD (TREE_CODE_ORDER_TABLE.getD i 0) 0 % 256 = v
+        generalize TREE_CODE_ORDER_TABLE.getD i 0 = o at ho
+        simp [List.getD_eq_getElem?_getD, ho]
+      rw [h2]
+      have h3 : (∃ j, i + 1 ≤ j ∧ j < i + 1 + n ∧ TREE_CODE_ORDER_TABLE.getD j 0 = k) ↔
+          (∃ j, i ≤ j ∧ j < i + (n + 1) ∧ TREE_CODE_ORDER_TABLE.getD j 0 = k) := by
+        constructor
+        · rintro ⟨j, a, b, c⟩; exact ⟨j, by omega, by omega, c⟩
+        · rintro ⟨j, a, b, c⟩
+          have : j ≠ i := by intro e; subst e; exact ho c
+          exact ⟨j, by omega, by omega, c⟩
+      simp only [h3]
+
+theorem ext_getD (l1 l2 : List Nat) (hl : l1.length = l2.length)
+    (h : ∀ k, k < l1.length → l1.getD k 0 = l2.getD k 0) : l1 = l2 := by
+  apply List.ext_getElem hl
+  intro i h1 h2
+  have := h i h1
+  simpa [List.getD_eq_getElem?_getD, h1, h2] using this
+
+/-- filling an all-zero table in TREE_CODE_ORDER_TABLE order reproduces a well-formed `codeLengths` -/
+theorem setTc_eq (cl : List Nat) (n : Nat) (hlen : cl.length = 19) (hsmall : ∀ x ∈ cl, x < 8)
+    (hun : ∀ i, n ≤ i → i < 19 → cl.getD (TREE_CODE_ORDER_TABLE.getD i 0) 0 = 0) :
+    setTc cl n 0 (List.replicate CODETREE_CODE_COUNT 0) = cl := by
+  apply ext_getD
+  · rw [setTc_length]; simp [CODETREE_CODE_COUNT, hlen]
+  · intro k hk
+    rw [setTc_length] at hk
+    have hk : k < 19 := by simpa [CODETREE_CODE_COUNT] using hk
+    rw [setTc_getD cl k n 0 _ (by simp [CODETREE_CODE_COUNT]) hk]
+    split
+    · have : cl.getD k 0 < 8 := by
+        have hk' : k < cl.length := by omega
+        simp only [List.getD_eq_getElem?_getD, List.getElem?_eq_getElem hk', Option.getD_some]
+        exact hsmall _ (List.getElem_mem hk')
+      omega
+    · rename_i hne
+      obtain ⟨j, hj, hjk⟩ := order_surj k hk
+      have hnj : n ≤ j := by
+        apply Nat.le_of_not_lt; intro hlt
+        exact hne ⟨j, by omega, by omega, hjk⟩
+      have := hun j hnj hj
+      rw [hjk] at this
+      rw [this]
+      generalize CODETREE_CODE_COUNT = m
+      simp only [List.getD_eq_getElem?_getD, List.getElem?_replicate]
+      split <;> rfl
+
+@[simp] theorem popMis_cons (c : Nat) (f : Bool) (r : List Op) : popMis c (Op.mis c f :: r) = .ok (f, r) := by
+  simp [popMis]
+@[simp] theorem popValue_cons (c v : Nat) (r : List Op) : popValue c (Op.value c v :: r) = .ok (v, r) := by
+  simp [popValue]
+
+/-- `HeaderValid.items_kind` for one item -/
+def ItemOk (it : RleItem) : Prop :=
+    (it.kind = 0 ∧ it.data ≤ 15) ∨ (it.kind = 16 ∧ 3 ≤ it.data ∧ it.data ≤ 6) ∨
+    (it.kind = 17 ∧ 3 ≤ it.data ∧ it.data ≤ 10) ∨ (it.kind = 18 ∧ 11 ≤ it.data ∧ it.data ≤ 138)
+
+theorem itemSpan_pos (it : RleItem) (h : ItemOk it) : 1 ≤ itemSpan it := by
+  unfold itemSpan; unfold ItemOk at h; split <;> omega
+
+/-- reconstruct_ld_trees inverts predict_ld_trees -/
+theorem decLd_encLd (items : List RleItem) :
+  ∀ (fuel : Nat) (syms : List Nat) (prev : Option Nat) (ops rest : List Op),
+    (∀ it ∈ items, ItemOk it) →
+    (items.map itemSpan).sum = syms.length →
+    syms.length < fuel →
+    encLdTrees syms prev items = .ok ops →
+    decLdTrees fuel syms prev (ops ++ rest) = .ok (items, rest) := by
+  induction items with
+  | nil =>
+    intro fuel syms prev ops rest _ hs hf he
+    simp at hs
+    have : syms = [] := List.length_eq_zero_iff.mp hs.symm
+    subst this
+    cases fuel with
+    | zero => omega
+    | succ f =>
+      simp [encLdTrees] at he
+      subst he
+      simp [decLdTrees]
+  | cons it items ih =>
+    intro fuel syms prev ops rest hok hs hf he
+    cases fuel with
+    | zero => omega
+    | succ f =>
+      have hit : ItemOk it := hok it (by simp)
+      have hpos := itemSpan_pos it hit
+      rw [encLdTrees] at he
+      split at he
+      · cases he
+      · rename_i hne
+        split at he
+        · cases he
+        · rename_i hspan
+          cases hr : encLdTrees (syms.drop (itemSpan it)) (some (syms.headD 0)) items with
+          | error e => simp only [hr, bind, Except.bind] at he; cases he
+          | ok r =>
+            simp only [hr, bind, Except.bind] at he
+            cases he
+            have hs' : (items.map itemSpan).sum = (syms.drop (itemSpan it)).length := by
+              simp at hs; simp; omega
+            have hf' : (syms.drop (itemSpan it)).length < f := by simp; omega
+            have ih' := ih f _ _ r rest (fun x hx => hok x (by simp [hx])) hs' hf' hr
+            have hdata : it.data % 256 = it.data := by
+              unfold ItemOk at hit; omega
+            have hkind : (it.kind = 0 ∨ it.kind = 16 ∨ it.kind = 17 ∨ it.kind = 18) := by
+              unfold ItemOk at hit; omega
+            rw [decLdTrees]
+            simp only [hne, if_false, Bool.false_eq_true]
+            simp only [List.cons_append, popCorr_cons, bind, Except.bind, decDiff_encDiff]
+            have hspan2 : itemSpan { kind := it.kind, data := it.data } = itemSpan it := rfl
+            rw [if_neg (not_not_intro hkind)]
+            by_cases hk0 : it.kind = 0
+            · have e1 : (if it.kind ≠ 0 then C_REPEAT_COUNT else C_LD_BITLEN) = C_LD_BITLEN := by simp [hk0]
+              rw [e1, if_neg (not_not_intro hk0)]
+              simp only [popCorr_cons, decDiff_encDiff, hdata]
+              rw [hspan2, if_neg hspan, ih']
+            · simp only [hk0, ne_eq, not_false_eq_true, if_true, popCorr_cons, decDiff_encDiff, hdata]
+              rw [hspan2, if_neg hspan, ih']
+
+theorem resizeTo_length (l : List Nat) (n : Nat) : (resizeTo l n).length = n := by
+  simp [resizeTo]; omega
+
+end Tree
+open Tree
 variable {H : Type}
 
 /-- recreate_tree_for_block inverts predict_tree_for_block, for ANY bit-length calculator -/
 theorem decTree_encTree (P : Pred H) (h : Header) (hv : HeaderValid h) (freq : List Nat × List Nat)
     (ops : List Op) (he : encTree P h freq = .ok ops) (rest : List Op) :
     decTree P freq (ops ++ rest) = .ok (h, rest) := by
-  sorry
-
+  unfold encTree at he
+  unfold decTree
+  generalize P.calcBitLengths freq.1 15 = bl0 at he ⊢
+  generalize P.calcBitLengths freq.2 15 = dl0 at he ⊢
+  simp only [bind, Except.bind] at he
+  generalize hbl1 : (if bl0.length ≠ h.numLiterals then resizeTo bl0 h.numLiterals else bl0) = bl1 at he
+  generalize hdl1 : (if dl0.length ≠ h.numDist then resizeTo dl0 h.numDist else dl0) = dl1 at he
+  have hbl1len : bl1.length = h.numLiterals := by
+    subst hbl1; split
+    · exact resizeTo_length _ _
+    · omega
+  have hdl1len : dl1.length = h.numDist := by
+    subst hdl1; split
+    · exact resizeTo_length _ _
+    · omega
+  have hsum : (List.map itemSpan h.items).sum = (bl1 ++ dl1).length := by
+    rw [List.length_append, hbl1len, hdl1len]; exact hv.items_sum
+  rw [if_neg (not_not_intro hsum)] at he
+  cases hc : encLdTrees (bl1 ++ dl1) none h.items with
+  | error e => rw [hc] at he; cases he
+  | ok c =>
+    rw [hc] at he
+    simp only [Except.ok.injEq] at he
+    subst he
+    have hld := fun tail => decLd_encLd h.items ((bl1 ++ dl1).length + 1) (bl1 ++ dl1) none c
+      tail hv.items_kind hsum (Nat.lt_succ_self _) hc
+    have hlit : (h.numLiterals - 257) % 65536 + NONLEN_CODE_COUNT = h.numLiterals := by
+      have := hv.lit_lo; have := hv.lit_hi; simp only [NONLEN_CODE_COUNT]; omega
+    have hdist : (h.numDist - 1) % 65536 + 1 = h.numDist := by
+      have := hv.dist_lo; have := hv.dist_hi; omega
+    have hcl : (h.numCodeLengths - 4) % 65536 + 4 = h.numCodeLengths := by
+      have := hv.cl_lo; have := hv.cl_hi; omega
+    simp only [List.append_assoc, List.cons_append, List.nil_append, popMis_cons, bind, Except.bind]
+    have e1 : ∀ tail : List Op,
+        (if decide (bl0.length ≠ h.numLiterals) = true then
+          popValue 5 ((if bl0.length ≠ h.numLiterals then [Op.value 5 ((h.numLiterals - 257) % 65536)] else []) ++ tail)
+            >>= fun v => pure (resizeTo bl0 (v.fst + NONLEN_CODE_COUNT), v.snd)
+        else pure (bl0, (if bl0.length ≠ h.numLiterals then [Op.value 5 ((h.numLiterals - 257) % 65536)] else []) ++ tail))
+        = (Except.ok (bl1, tail) : R (List Nat × List Op)) := by
+      intro tail
+      by_cases hb : bl0.length = h.numLiterals
+      · simp only [hb, ne_eq, not_true_eq_false, decide_false, if_false, Bool.false_eq_true, List.nil_append] at hbl1 ⊢
+        rw [hbl1]; rfl
+      · simp only [hb, ne_eq, not_false_eq_true, decide_true, if_true, List.cons_append, List.nil_append, popValue_cons, bind, Except.bind, hlit] at hbl1 ⊢
+        rw [hbl1]; rfl
+    have e2 : ∀ tail : List Op,
+        (if decide (dl0.length ≠ h.numDist) = true then
+          popValue 5 ((if dl0.length ≠ h.numDist then [Op.value 5 ((h.numDist - 1) % 65536)] else []) ++ tail)
+            >>= fun v => pure (resizeTo dl0 (v.fst + 1), v.snd)
+        else pure (dl0, (if dl0.length ≠ h.numDist then [Op.value 5 ((h.numDist - 1) % 65536)] else []) ++ tail))
+        = (Except.ok (dl1, tail) : R (List Nat × List Op)) := by
+      intro tail
+      by_cases hb : dl0.length = h.numDist
+      · simp only [hb, ne_eq, not_true_eq_false, decide_false, if_false, Bool.false_eq_true, List.nil_append] at hdl1 ⊢
+        rw [hdl1]; rfl
+      · simp only [hb, ne_eq, not_false_eq_true, decide_true, if_true, List.cons_append, List.nil_append, popValue_cons, bind, Except.bind, hdist] at hdl1 ⊢
+        rw [hdl1]; rfl
+    simp only [bind, Except.bind] at e1 e2
+    rw [e1]
+    simp only [popMis_cons]
+    rw [e2]
+    simp only [hld]
+    have hcl19 : ¬ h.numCodeLengths > CODETREE_CODE_COUNT := by
+      have := hv.cl_hi; simp only [CODETREE_CODE_COUNT]; omega
+    have hfin := setTc_eq h.codeLengths h.numCodeLengths hv.cl_len hv.cl_small hv.cl_unused
+    by_cases ht : tcLenNoTrailing (P.calcBitLengths (codetreeFreq h.items (List.replicate CODETREE_CODE_COUNT 0)) 7)
+                              (P.calcBitLengths (codetreeFreq h.items (List.replicate CODETREE_CODE_COUNT 0))
+                                  7).length = h.numCodeLengths
+    · simp only [ht, ne_eq, not_true_eq_false, if_false, List.cons_append, List.nil_append, popMis_cons,
+        Bool.false_eq_true, pure, Except.pure, hcl19, decTc_encTc, hfin, hbl1len, hdl1len]
+    · simp only [ht, ne_eq, not_false_eq_true, if_true, List.cons_append, List.nil_append, popMis_cons,
+        popValue_cons, hcl, pure, Except.pure, hcl19, if_false, decTc_encTc, hfin, hbl1len, hdl1len]
 end Preflate.Proofs
